@@ -231,6 +231,10 @@ def wsgi_path_item(environ, name):
         return None
 
 
+# The largest amount that can be bound into a query (signed 64 bit).
+_MAX_AMOUNT = 2 ** 63 - 1
+
+
 def normalize_resources_qs_param(qs):
     """Given a query string parameter for resources, validate it meets the
     expected format and return a dict of amounts, keyed by resource class name.
@@ -289,6 +293,17 @@ def normalize_resources_qs_param(qs):
                    'amount >= 1. Got: %(amount)d.')
             msg = msg % {
                 'resource_name': rc_name,
+                'amount': amount,
+            }
+            raise webob.exc.HTTPBadRequest(msg)
+        if amount > _MAX_AMOUNT:
+            # Larger than anything the database can compare with (and far
+            # larger than any inventory can be).
+            msg = ('Requested resource %(resource_name)s requires '
+                   'amount <= %(max)d. Got: %(amount)d.')
+            msg = msg % {
+                'resource_name': rc_name,
+                'max': _MAX_AMOUNT,
                 'amount': amount,
             }
             raise webob.exc.HTTPBadRequest(msg)
